@@ -1708,6 +1708,15 @@ fn main() {
         println!("pc-level only: {n} confirmed violation signature(s); no evidence written");
         std::process::exit(if n == 0 { 0 } else { 1 });
     }
+    if cli.rest.iter().any(|a| a == "--concurrent-only") {
+        // debugging aid: only the thread-interleaving part, no evidence written
+        let mut scratch = vh::Report::new("C14", &cli, "model_checking");
+        let t0 = std::time::Instant::now();
+        let n = concurrent_level(&mut scratch, cli.tier, &[SrtpProfile::Aes128Sha1_80, SrtpProfile::AeadAes128Gcm]);
+        println!("{}", serde_json::to_string_pretty(&json!(scratch.coverage)).unwrap_or_default());
+        println!("concurrent part only: {n} violation signature(s) in {:.1}s; no evidence written", t0.elapsed().as_secs_f64());
+        std::process::exit(if n == 0 { 0 } else { 1 });
+    }
     let mut rep = vh::Report::new("C14", &cli, "model_checking");
     let depth = cli.tier.pick(5usize, 7usize);
     let profiles: Vec<SrtpProfile> = cli.tier.pick(
